@@ -270,6 +270,79 @@ def gen_groups(rng, tier):
                     groups.append(dict(kind="npseq", signed=first[0], n_bits=first[1], n_frac=first[2],
                                        formats=[list(t) for t in seq], xs=part, shape=shape, layout=layout,
                                        dtype=dtype))
+    # --- numpy scalars as inputs of the scalar converters
+    # (a) words handed over as numpy integer scalars of every width, n_frac negative too
+    D1_OPEN = False    # fix_to_float on a numpy UNSIGNED word with the sign bit set computed in the word's dtype
+    #                    (repaired in /repo 7757ea0): judged in full as a regression detector
+    for s in (True, False):
+        for n in NP_BITS:
+            wd = ("int%d" if s else "uint%d") % n
+            lo, hi = bounds(s, n)
+            for f in sorted(set([-12, -9, -4, -2, -1, 0, 1, 4, n // 2, n, 70] + ([] if not thorough else fracs_all[::7]))):
+                vs = [v for v in gen_ints(rng, s, n, 60 if thorough else 24)]
+                groups.append(dict(kind="back", signed=s, n_bits=n, n_frac=f, vs=vs, word_dtype=wd, nomodel=True))
+            for wn in [m for m in NP_BITS if m >= n]:
+                for wsigned in (False, True):
+                    sb_ = 1
+                    for fs in (True, False):
+                        sb = 1 if fs else 0
+                        for f in sorted(set([0, n // 2, n - sb])):
+                            ws = [v % (1 << n) for v in gen_ints(rng, fs, n, 16)] + [(1 << n) - 1, 1 << (n - 1), (1 << (n - 1)) - 1, 0]
+                            wlo, whi = bounds(wsigned, wn)
+                            ws = [w for w in dict.fromkeys(ws) if wlo <= w <= whi]
+                            if D1_OPEN and not wsigned:
+                                ws = [w for w in ws if not (fs and w >= (1 << (n - 1)))]
+                            if wsigned and wn == n and fs:
+                                continue    # a SIGNED numpy word of the format's own width is not an "unsigned
+                                #             integer" word: `value & (1 << (n_bits - 1))` raises OverflowError
+                            if ws and s == fs:
+                                groups.append(dict(kind="unfix", signed=fs, n_bits=n, n_frac=f, nomodel=True,
+                                                   word_dtype=("int%d" if wsigned else "uint%d") % wn,
+                                                   wv=[[w, w - (1 << n) if (fs and w >= (1 << (n - 1))) else w] for w in ws]))
+    # (b) floats handed over as numpy float scalars, at and around both ends of every format's range
+    for st in ("float64", "float32", "float16"):
+        fmts = [(s, n, f) for s in (True, False) for n in NP_BITS
+                for f in sorted(set([0, -4, n // 2, n - (1 if s else 0), n, rng.choice(fracs_all)]))]
+        fmts += [(s, n, rng.choice(fracs_all)) for s in (True, False) for n in (12, 24, 53, 63)]
+        for (s, n, f) in fmts:
+            cnt = 150 if thorough else 44
+            xs = (narrow_values(rng, s, n, f, cnt, st) if st != "float64" else
+                  list(dict.fromkeys(narrow_values(rng, s, n, f, cnt // 2, "float32") + gen_values(rng, s, n, f, cnt // 2))))
+            groups.append(dict(kind="fp", signed=s, n_bits=n, n_frac=f, xs=xs, scalar_type=st, nomodel=(st != "float64")))
+            sb = 1 if s else 0
+            if 0 <= f <= n - sb:
+                groups.append(dict(kind="fix", signed=s, n_bits=n, n_frac=f, xs=xs[:cnt // 2], scalar_type=st,
+                                   nomodel=(st != "float64")))
+    # --- array converters inside an ambient np.errstate: an exception on in-domain elements is a failing input.
+    #     Only in-domain elements (an overflowing scaled value legitimately raises under over='raise'); under
+    #     under='raise' / all='raise' only elements whose scaling does not underflow (the caller asked for that)
+    settings = [dict(invalid="raise"), dict(over="raise"), dict(divide="raise"), dict(under="raise"),
+                dict(all="raise"), dict(all="warn"), dict(all="ignore"), dict(invalid="raise", over="raise")]
+    for es in settings:
+        strict_under = es.get("under") == "raise" or es.get("all") == "raise"
+        for dtype in ("float64", "float32"):
+            emin = -1022 if dtype == "float64" else -126
+            for s in (True, False):
+                for n in NP_BITS:
+                    for f in sorted(set([0, rng.choice(fracs_all)] + ([n - (1 if s else 0)] if thorough else []))):
+                        cnt = 60 if thorough else 26
+                        xs = (gen_values(rng, s, n, f, cnt, nonfinite=False) if dtype == "float64"
+                              else narrow_values(rng, s, n, f, cnt, dtype))
+                        xs = [b for b in xs if in_domain(b2f(b), f, dtype)]
+                        if strict_under:
+                            xs = [b for b in xs if b2f(b) == 0 or abs(Fraction(b2f(b)) * pow2(f)) >= pow2(emin)]
+                        for shape, layout, part in split_arrays(rng, xs)[:(8 if thorough else 4)]:
+                            if layout == "pyscalar":
+                                layout = "npscalar"
+                            groups.append(dict(kind="np", signed=s, n_bits=n, n_frac=f, xs=part, shape=shape,
+                                               layout=layout, dtype=dtype, errstate=es, nomodel=True))
+        for s in (True, False):
+            for n in NP_BITS:
+                for f in ((-4, 0, n // 2, 70) if thorough else (-4, n // 2)):
+                    vs = gen_ints(rng, s, n, 20)
+                    groups.append(dict(kind="npback", signed=s, n_bits=n, n_frac=f, vs=vs, shape=[len(vs)],
+                                       layout="c", dtype=("int%d" if s else "uint%d") % n, errstate=es,
+                                       nomodel=True))
     # --- float32 / float16 input arrays: implementation and oracle only (the Coq model is binary64)
     for dtype in ("float32", "float16"):
         for s in (True, False):
@@ -420,15 +493,17 @@ def oracle(chk, g, out, case=None, prefix=""):
     if out == ["hang"]:
         fail(kind + ":hang", "does not return")
         return
+    st = g.get("scalar_type") or "float64"
+    stn = "np.%s " % st if g.get("scalar_type") else ""
     if kind == "fp":
         pairs = []
         for i, (b, o) in enumerate(zip(g["xs"], out)):
             x = b2f(b)
-            if not (judged and in_domain(x, f)):
+            if not (judged and in_domain(x, f, st)):
                 continue
             r = judge_fp(s, n, f, x, o, "fp")
             if r:
-                fail(r[0], "x = %s (%r): %s" % (x.hex(), x, r[1]), index=i, x=x.hex(), observed=o,
+                fail(r[0], "x = %s%s (%r): %s" % (stn, x.hex(), x, r[1]), index=i, x=x.hex(), observed=o,
                      expected=expected_fp(s, n, f, x))
             elif isinstance(o, int):
                 pairs.append((Fraction(x), o, x))
@@ -443,6 +518,15 @@ def oracle(chk, g, out, case=None, prefix=""):
         for i, (v, (xb, rt)) in enumerate(zip(g["vs"], out)):
             if not (judged and lo <= v <= hi and -1000 <= f <= 900):
                 continue
+            if g.get("word_dtype"):
+                # the word handed over as a numpy integer scalar: the float must be the (correctly rounded)
+                # exact rational value v / 2^n_frac, as it is for the equal Python int
+                want = f2b(float(Fraction(v) / pow2(f)))
+                if xb != want:
+                    fail("fp_to_float:numpy-word", "word np.%s(%d): fp_to_float gives %s, the exact value v / 2^n_frac is %s"
+                         % (g["word_dtype"], v, b2f(xb).hex() if isinstance(xb, int) else xb, b2f(want).hex()),
+                         index=i, v=v, observed=xb, expected=want)
+                    continue
             if rt != v:
                 key = "roundtrip" if is_double(v) else "roundtrip-beyond-2^53"
                 fail(key, "v = %d: fp_to_float gives %s and float_to_fp of that gives %r, not v" % (
@@ -456,15 +540,15 @@ def oracle(chk, g, out, case=None, prefix=""):
                 if old != "fail0":
                     fail("fix:no-valueerror", "format outside the documented limits accepted (result %r)" % (old,), index=i)
                 continue
-            if not (judged and in_domain(x, f)):
+            if not (judged and in_domain(x, f, st)):
                 continue
             want = expected_fp(s, n, f, x) % (1 << n)
             if not (isinstance(old, int) and isinstance(new, int) and old == new % (1 << n)) or old != want:
                 y = Fraction(x) * pow2(f)
                 key = ("deprecated-fix-saturation-beyond-2^53" if n - sb >= 54 and y > bounds(s, n)[1]
                        else "fix:disagrees")
-                fail(key, "x = %s (%r): float_to_fix gives %r, float_to_fp gives %r (= %s modulo 2^%d)" % (
-                    x.hex(), x, old, new, new % (1 << n) if isinstance(new, int) else "?", n),
+                fail(key, "x = %s%s (%r): float_to_fix gives %r, float_to_fp gives %r (= %s modulo 2^%d)" % (
+                    stn, x.hex(), x, old, new, new % (1 << n) if isinstance(new, int) else "?", n),
                      index=i, x=x.hex(), observed=[old, new], expected=want)
     elif kind == "unfix":
         sb = 1 if s else 0
@@ -475,8 +559,8 @@ def oracle(chk, g, out, case=None, prefix=""):
                     fail("unfix:no-valueerror", "format outside the documented limits accepted (result %r)" % (a,), index=i)
                 continue
             if judged and a != b:
-                fail("unfix:disagrees", "word %d: fix_to_float gives %r, fp_to_float(%d) gives %r" % (w, a, v, b),
-                     index=i, observed=[a, b])
+                fail("unfix:disagrees", "word %s%d: fix_to_float gives %r, fp_to_float(%d) gives %r" % (
+                    "np.%s " % g["word_dtype"] if g.get("word_dtype") else "", w, a, v, b), index=i, observed=[a, b])
     elif kind == "np":
         arr, scal = out["array"], out["scalar"]
         # NB: a converter that modifies the caller's input array is not, by itself, a violation of C16's
@@ -487,8 +571,11 @@ def oracle(chk, g, out, case=None, prefix=""):
                 fail("numpy:no-valueerror", "unsupported width accepted")
             return
         if not isinstance(arr, dict):
-            fail("numpy:raises", "the array converter raised an exception on a %s input of shape %r (%s)"
-                 % (g.get("dtype", "float64"), g["shape"], g["layout"]))
+            fail("numpy:raises", "the array converter raised an exception on a %s input of shape %r (%s)%s"
+                 % (g.get("dtype", "float64"), g["shape"], g["layout"],
+                    " under ambient np.errstate(%s); elements %s" % (
+                        ", ".join("%s=%r" % kv for kv in g["errstate"].items()),
+                        [b2f(b).hex() for b in g["xs"][:8]]) if g.get("errstate") else ""))
             return
         if arr["shape"] != list(g["shape"]) or len(arr["vals"]) != len(g["xs"]):
             fail("numpy:shape", "input shape %r, output shape %r" % (g["shape"], arr["shape"]))
@@ -515,7 +602,9 @@ def oracle(chk, g, out, case=None, prefix=""):
         arr, scal = out["array"], out["scalar"]
         # (input modification alone is not judged here: see the note in the "np" branch)
         if not isinstance(arr, dict):
-            fail("numpy-back:raises", "the array converter raised an exception")
+            fail("numpy-back:raises", "the array converter raised an exception%s" % (
+                " under ambient np.errstate(%s)" % ", ".join("%s=%r" % kv for kv in g["errstate"].items())
+                if g.get("errstate") else ""))
             return
         if arr["shape"] != list(g["shape"]) or len(arr["vals"]) != len(g["vs"]):
             fail("numpy-back:shape", "input shape %r, output shape %r" % (g["shape"], arr["shape"]))
@@ -662,8 +751,18 @@ def run(chk, args):
         "the property's domain: x finite and 2^n_frac * x a finite double; n_frac within the exponent range of a "
         "double (-1074 <= n_frac <= 1023; generator: -4..70 plus a few extreme scales); the oracle judges formats of "
         "8..64 bits (other widths are compared with the model only)",
+        "ambient np.errstate: the array converters are run under invalid/over/divide/under/all='raise', all='warn', "
+        "all='ignore' on in-domain elements; under under='raise' / all='raise' only elements whose scaling does not "
+        "underflow are judged (a FloatingPointError for an underflowing multiply is what the caller asked numpy for)",
+        "numpy scalars as inputs of the scalar converters: np.float64 behaves as a Python float; np.float32 / np.float16 "
+        "are scaled in their own precision (same own-precision domain as for narrow arrays); words may be numpy "
+        "integer scalars of any width, except a SIGNED numpy word of a signed format's own width (not an unsigned word)",
         "NaN elements are outside the domain and are not sent to the array converter (their integer cast is platform-defined)"]
+    import time
+    t0 = time.time()
+    phase = {}
     built = chk.prove()
+    phase["prove"] = round(time.time() - t0, 1)
     if args.replay:
         doc = json.load(open(args.replay))
         groups = [fl["replay"]["case"] for fl in doc.get("failures", []) if "case" in fl.get("replay", {})]
@@ -683,7 +782,11 @@ def run(chk, args):
             cur, w = [], 0
     if cur:
         chunks.append(cur)
+    t1 = time.time()
+    phase["generate"] = round(t1 - t0 - phase["prove"], 1)
     outs = [o for part in chk.impl_parallel("impl_c16.py", chunks) for o in part]
+    phase["implementation"] = round(time.time() - t1, 1)
+    t1 = time.time()
     keep = [i for i, o in enumerate(outs) if o != ["skipped"]]
     groups, outs = [groups[i] for i in keep], [outs[i] for i in keep]
     for g, o in zip(groups, outs):
@@ -698,6 +801,9 @@ def run(chk, args):
                             implementation=(outs[k][:6] if isinstance(outs[k], list) else
                                             dict(array=outs[k]["array"] if isinstance(outs[k]["array"], str)
                                                  else dict(outs[k]["array"], vals=outs[k]["array"]["vals"][:6])))))
+    phase["oracle"] = round(time.time() - t1, 1)
+    t1 = time.time()
+    chk.coverage["phase_s"] = phase
     # ---- model
     if built and chk.model_ok:
         try:
@@ -741,6 +847,7 @@ def run(chk, args):
                     chk.oblige("correspondence:%s (%d inputs, bit-exact / exact integers / error class)" % (label, cnt), True)
         except RuntimeError as e:
             chk.oblige("correspondence:model-evaluates", False, str(e))
+    phase["model"] = round(time.time() - t1, 1)
     chk.coverage["rule"] = (
         "per format (signed/unsigned x n_bits in {8,16,32,64} for every converter, further widths 9..63 and a few "
         "outside 8..64 for the scalar ones x n_frac in -4..70): both ends of the range and 0, +-1 with +-1/2 step "
@@ -752,7 +859,10 @@ def run(chk, args):
         "type, incl. its neighbours of both range ends and of the rounded clip bound; oracle only); read-only and "
         "broadcast (zero-stride) inputs for both array converters; one input array object converted by 5-6 converters "
         "in turn (narrow formats first, n_frac 0 and others), each result judged against the original values, and after "
-        "every array call the input array must be bit-identical; a malformed-format stream. thorough tier: all n_frac in -4..70 for the numpy widths, 600 values per "
+        "every array call the input array must be bit-identical; numpy float scalars (float64/32/16) into float_to_fp / "
+        "float_to_fix at and around both range ends incl. exact powers of two; numpy integer scalars of every width as "
+        "words of fp_to_float (n_frac -12..70, judged against the exact rational value) and fix_to_float; the array "
+        "converters under 8 ambient np.errstate settings; a malformed-format stream. thorough tier: all n_frac in -4..70 for the numpy widths, 600 values per "
         "format, the model evaluated on every 4th format; exhaustive enumeration of every value of every 8-bit "
         "format (all n_frac; model + oracle) and of 16-bit formats (oracle) for the way back, scalar and array, and of "
         "all 256 words for fix_to_float. non-trivial = input inside the property's domain whose result is not "
